@@ -94,7 +94,9 @@ fn hscript(code: usize, depth: usize) -> Vec<HStep> {
 
 /// One read handle and one write handle on the same file, opened, used, dropped and re-opened in
 /// every order (while the file is also removed / re-created), on the sync and on the async stacks.
-fn handle_interplay(depth: usize, vio: &mut Vec<Violation>, classes: &mut BTreeMap<String, u64>) -> u64 {
+/// Returns the number of scripts; panics go to `vio` (C13), scripts whose final observable state
+/// differs between the sync and the async world to `diffs` (C15).
+pub fn handle_interplay(depth: usize, vio: &mut Vec<Violation>, diffs: &mut Vec<Violation>, classes: &mut BTreeMap<String, u64>) -> u64 {
     use crate::asyncmc::{abuild, block_on};
     use async_std::io::prelude::{ReadExt as _, SeekExt as _, WriteExt as _};
     let cfgs = [Cfg::Mem, Cfg::alt(Cfg::Mem, "/Z"), Cfg::Ov(vec![Cfg::Mem, Cfg::Mem]), Cfg::Phys];
@@ -104,11 +106,13 @@ fn handle_interplay(depth: usize, vio: &mut Vec<Violation>, classes: &mut BTreeM
         .collect();
     // the library's async read_dir prints every entry: keep stdout clean while the sweep runs
     let quiet = crate::asyncmc::Silence::start();
-    let res: Vec<(Vec<Violation>, Vec<String>)> = work
+    let probes = vec!["/d".to_string(), "/d/f".to_string()];
+    let res: Vec<(Vec<Violation>, Vec<String>, Option<Vec<String>>)> = work
         .par_iter()
         .map(|(ci, is_async, code)| {
             let cfg = &cfgs[*ci];
             let script = hscript(*code, depth);
+            let mut final_state: Option<Vec<String>> = None;
             let init: Init = if matches!(cfg, Cfg::Ov(_)) {
                 vec![(1, vec![("/d/f".to_string(), Node::File(b"lower".to_vec()))])]
             } else {
@@ -161,6 +165,7 @@ fn handle_interplay(depth: usize, vio: &mut Vec<Violation>, classes: &mut BTreeM
                                 drop(wr.take());
                                 let _ = block_on(f.exists());
                                 let _ = block_on(d.read_dir());
+                                final_state = Some(crate::snapshot::snapshot(&crate::asyncmc::ABlock(b.root.clone()), &probes).dump());
                                 None
                             }
                         }
@@ -182,6 +187,7 @@ fn handle_interplay(depth: usize, vio: &mut Vec<Violation>, classes: &mut BTreeM
                 let f = b.root.join("d/f").unwrap();
                 let mut rd: Option<Box<dyn vfs::SeekAndRead + Send>> = None;
                 let mut wr: Option<Box<dyn vfs::SeekAndWrite + Send>> = None;
+                let mut seeked_writer = false;
                 let mut res = Ok(());
                 for s in script.iter().map(Some).chain(std::iter::once(None)) {
                     let step = guard(|| {
@@ -212,11 +218,14 @@ fn handle_interplay(depth: usize, vio: &mut Vec<Violation>, classes: &mut BTreeM
                             Some(HStep::RecreateAsDir) => Some(f.create_dir_all().is_ok()),
                             Some(HStep::RemoveParentAll) => Some(d.remove_dir_all().is_ok()),
                             Some(HStep::SeekEnd3) => {
+                                // (async write handles cannot seek: such scripts are not compared)
+                                seeked_writer |= wr.is_some();
                                 let a = rd.as_mut().map(|h| h.seek(SeekFrom::End(3)).is_ok());
                                 let b = wr.as_mut().map(|h| h.seek(SeekFrom::End(3)).is_ok());
                                 a.or(b)
                             }
                             Some(HStep::SeekStart0) => {
+                                seeked_writer |= wr.is_some();
                                 let a = rd.as_mut().map(|h| h.seek(SeekFrom::Start(0)).is_ok());
                                 let b = wr.as_mut().map(|h| h.seek(SeekFrom::Start(0)).is_ok());
                                 a.or(b)
@@ -224,7 +233,9 @@ fn handle_interplay(depth: usize, vio: &mut Vec<Violation>, classes: &mut BTreeM
                             None => {
                                 drop(rd.take());
                                 drop(wr.take());
-                                let _ = crate::snapshot::snapshot(&b.root, &["/d".to_string(), "/d/f".to_string()]);
+                                if !seeked_writer {
+                                    final_state = Some(crate::snapshot::snapshot(&b.root, &probes).dump());
+                                }
                                 None
                             }
                         }
@@ -251,11 +262,34 @@ fn handle_interplay(depth: usize, vio: &mut Vec<Violation>, classes: &mut BTreeM
                     replay: json!({"engine": "handle-interplay", "world": world, "configuration": cfg.label(), "script": format!("{:?}", script)}),
                 });
             }
-            (local, cl)
+            (local, cl, final_state)
         })
         .collect();
     drop(quiet);
-    for (v, cl) in res {
+    // the same script in both worlds: same final tree, types, lengths and bytes
+    for ci in 0..cfgs.len() {
+        // (not on the physical backends: an async-std file keeps written bytes in its own buffer until
+        // it is flushed or dropped, so touching the path while the handle is open - which C01 leaves
+        // unspecified anyway - legitimately ends differently there)
+        if cfgs[ci].has_phys() {
+            continue;
+        }
+        for code in 0..total {
+            let s = &res[(ci * 2) * total + code].2;
+            let a = &res[(ci * 2 + 1) * total + code].2;
+            if let (Some(s), Some(a)) = (s, a) {
+                if s != a {
+                    diffs.push(Violation {
+                        property: "C15".into(),
+                        signature: format!("sync~async {}|reader-and-writer-on-one-file|final-state-differs", cfgs[ci].label()),
+                        summary: format!("script {:?} on /d/f of {}: final state sync {:?}, async {:?}", hscript(code, depth), cfgs[ci].label(), s, a),
+                        replay: json!({"engine": "handle-interplay", "configuration": cfgs[ci].label(), "script": format!("{:?}", hscript(code, depth))}),
+                    });
+                }
+            }
+        }
+    }
+    for (v, cl, _) in res {
         vio.extend(v);
         for c in cl {
             *classes.entry(format!("handle-interplay:{}", c)).or_insert(0) += 1;
@@ -575,7 +609,8 @@ pub fn run_c13(ctx: &Ctx) -> i32 {
 
     // a reader and a writer on the same file at the same time while the file / its parent is
     // removed or replaced, in both worlds
-    let n = handle_interplay(if thorough { 4 } else { 3 }, &mut vio, &mut classes);
+    let mut _diffs = vec![];
+    let n = handle_interplay(if thorough { 4 } else { 3 }, &mut vio, &mut _diffs, &mut classes);
     println!("  [reader and writer handles on one file, sync and async] scripts={}", n);
     extra_runs += n;
 
